@@ -5,6 +5,7 @@ import ast
 from typing import Any, List, Optional
 
 from ..core import Ctx
+from ..loader import AnalysisError
 from ..dectab import DTop, ModelInterp, Raises
 from ..symex import SUMMARIZER, expand, strip_ifexp_paths, u
 
@@ -260,16 +261,22 @@ def rendering_spaces(ctx: Ctx):
 def explicit_order(ctx: Ctx):
     ex = ctx.repo.cls(COL, "ExplicitOrderCollator")
     m = ctx.repo.lookup(ex, "_element_order_descriptors")
-    src = ast.unparse(m.node)
-    steps = [
-        ("remaining map in payload order", "collections.OrderedDict(((element.element_id, idx) for idx, element in enumerate(self._elements) if not element.derived))" in src),
-        ("listed ids in listed order", "for element_id in self._order_spec.element_ids:" in src),
-        ("first mention wins / unknown ignored", "if element_id in remaining_element_idxs_by_id:" in src and "remaining_element_idxs_by_id.pop(element_id)" in src),
-        ("leftovers in payload order", "for element_id, idx in remaining_element_idxs_by_id.items():" in src),
-        ("positions enumerate the generated sequence", "for position, (idx, element_id) in enumerate(iter_element_order_descriptors())" in src),
-    ]
-    bad = [s for s, ok in steps if not ok]
-    ctx.ob("explicit-order", f"{COL}::ExplicitOrderCollator._element_order_descriptors", bad or [s for s, _ in steps], "listed order (first mention wins, unknown ignored) then unlisted elements in payload order", not bad)
+    from ..orderkit import explicit_order_facts
+
+    if m is None:
+        raise AnalysisError("ExplicitOrderCollator._element_order_descriptors vanished")
+    f = explicit_order_facts(m.node)
+    where = f"{COL}::ExplicitOrderCollator._element_order_descriptors"
+    ctx.ob("explicit-order", where + " [listed ids in listed order]", f["listed_loop"], "a loop over self._order_spec.element_ids", True if f["listed_loop"] else None)
+    if f["lookup_without_consumption"]:
+        ctx.violated("explicit-order", where + " [first mention wins]", f["lookup_without_consumption"], "each listed id is CONSUMED from the remaining map", "an id that is looked up but not removed is placed once per mention")
+    elif f["unguarded_pop"]:
+        ctx.violated("explicit-order", where + " [unknown ids ignored]", f["unguarded_pop"], "pop under `id in map`", "an id that matches nothing would raise KeyError")
+    else:
+        ctx.ob("explicit-order", where + " [first mention wins / unknown ignored]", f"map={f['map']} pop guarded by membership: {f['listed_pop_guarded']}", "each listed id is popped from the remaining map under `id in map`", True if f["listed_pop_guarded"] else None)
+    ctx.ob("explicit-order", where + " [remaining map over the non-derived elements in payload order]", f"over self._elements: {f['map_over_elements']}; derived excluded: {f['map_excludes_derived']}", "built by enumerating self._elements, derived elements excluded",
+           True if (f["map_over_elements"] and f["map_excludes_derived"]) else None)
+    ctx.ob("explicit-order", where + " [leftovers in payload order]", f["leftovers"], "the map is iterated after the listed ids", True if f["leftovers"] else None)
     os_ = ctx.repo.cls(DIM, "_OrderSpec")
     e = expand(ctx.repo, os_, "element_ids", stop=lambda mm: True)
     ctx.check_expr("explicit-order", f"{DIM}::_OrderSpec.element_ids", e, "tuple(self._order_dict.get('element_ids') or [])")
